@@ -190,15 +190,35 @@ WHOLE = {
     "textual.cc": [("textual.cc:xact_directive(body)", r"xact_t \* instance_t::xact_directive\(char \* line, std::streamsize len,\s*xact_t \* previous_xact\)\s*\{"),
                    ("textual.cc:parse(body)", r"void\s+instance_t::parse\(\)\s*\{"),
                    ("textual.cc:default_account_directive(body)", r"void\s+instance_t::default_account_directive\(char \* line\)\s*\{")],
+    "commodity.cc": [("commodity.cc:compare_by_commodity(body)",
+                      r"int\s+commodity_t::compare_by_commodity::operator\(\)\(const amount_t \* left,\s*const amount_t \* right\)\s*const\s*\{")],
     "pool.cc": [("pool.cc:exchange(body)", r"commodity_pool_t::exchange\(const amount_t&\s+amount,\s*const amount_t&\s+cost,[^{]*\{")],
 }
+
+
+def lot_snippets():
+    """lot annotations: `{{total}}` division at parse time, identity of annotated commodities"""
+    out = []
+    amt = _clean(strip_comments(src("amount.cc")))
+    m = re.search(r"if \(commodity_ && details\) \{ if \(details\.has_flags\(ANNOTATION_PRICE_NOT_PER_UNIT\)\) \{[^}]*\} set_commodity\([^;]*;\s*\}", amt)
+    need(m, "amount.cc: annotation handling at the end of amount_t::parse")
+    out.append(("amount.cc:parse-annotation", m.group(0)))
+    ah = _clean(strip_comments(src("annotate.h")))
+    m = re.search(r"bool operator==\(const annotation_t& rhs\) const \{ return \(price == rhs\.price && date == rhs\.date && tag == rhs\.tag &&[^}]*\}", ah)
+    need(m, "annotate.h: annotation_t::operator==")
+    out.append(("annotate.h:annotation-equality", m.group(0)))
+    ac = _clean(strip_comments(src("annotate.cc")))
+    m = re.search(r"amount_t temp; temp\.parse\(buf, [A-Z_ |]*\); price = temp;", ac)
+    need(m, "annotate.cc: lot price parse flags")
+    out.append(("annotate.cc:price-parse", m.group(0)))
+    return out
 
 
 def gen_finalize():
     """key statements (located one by one, so a change is localised) followed by the
     whole normalised bodies of the functions on the path (so that any edit of
     them, even one no key statement covers, breaks `C01.finalize_shape_pinned`)."""
-    items = shape()
+    items = shape() + lot_snippets()
     for fname, sigs in WHOLE.items():
         items += extract.pin_functions(fname, sigs)
     return extract.gen_pairs("(site, normalised C++ text) of every statement Model/Finalize.lean mirrors, and the whole bodies "
